@@ -11,7 +11,63 @@ use vcore::rng::Rng;
 
 pub fn ncases(a: &Args, quick: u64, thorough: u64) -> u64 {
     let base = if a.tier == "thorough" { thorough } else { quick };
-    ((base as f64) * a.scale).ceil().max(1.) as u64
+    // sanitizer legs run the same monitors on a reduced number of cases (valgrind ~40x, ASan ~2x slower)
+    let leg_factor = match a.leg.as_deref() {
+        Some("valgrind") => 0.02,
+        Some("asan") if a.tier == "thorough" => 0.1,
+        _ => 1.,
+    };
+    ((base as f64) * a.scale * leg_factor).ceil().max(1.) as u64
+}
+
+pub fn is_miri_leg(a: &Args) -> bool {
+    a.leg.as_deref().map_or(false, |l| l.starts_with("miri"))
+}
+
+/// Tiny inputs for the Miri legs (about 2 s per cell under the interpreter): exact lattices (ties -> exact predicate
+/// and big integers), generators on walls, a periodic pair, a 2D lattice. `k` selects the input.
+pub fn miri_case(seed: u64, k: u64) -> Case {
+    use glam::DVec3;
+    let mut r = Rng::stream("miri", &[seed, k]);
+    let kind = (seed + k) % 6;
+    let mk = |name: &str, dim: usize, periodic: bool, anchor: DVec3, width: DVec3, pts: Vec<DVec3>| Case {
+        family: "miri".into(),
+        dim,
+        periodic,
+        anchor,
+        width,
+        pts,
+        mask: None,
+        origin: format!("miri/{name}/seed{seed}/case{k}"),
+    };
+    let w = DVec3::new(1., 0.5 + r.f(), 1. + r.f());
+    let a = DVec3::new(-0.5, 3., 0.25);
+    let lat = |nx: usize, ny: usize, nz: usize, centred: bool| -> Vec<DVec3> {
+        let mut v = vec![];
+        for i in 0..nx {
+            for j in 0..ny {
+                for l in 0..nz {
+                    let o = if centred { 0.5 } else { 0. };
+                    let d = |q: usize, n: usize| if centred { (q as f64 + o) / n as f64 } else if n > 1 { q as f64 / (n - 1) as f64 } else { 0.5 };
+                    v.push(a + w * DVec3::new(d(i, nx), d(j, ny), d(l, nz)));
+                }
+            }
+        }
+        v
+    };
+    match kind {
+        0 => mk("lattice_2x2x2", 3, false, a, w, lat(2, 2, 2, true)),
+        1 => mk("lattice_2x2x2_periodic", 3, true, a, w, lat(2, 2, 2, true)),
+        2 => mk("corners_2x2x2", 3, false, a, w, lat(2, 2, 2, false)),
+        3 => mk("lattice_3x3_2d", 2, r.bool(), a, w, lat(3, 3, 1, true)),
+        4 => {
+            let pts = (0..5).map(|_| a + w * DVec3::new(r.f(), r.f(), r.f())).collect();
+            let mut c = mk("uniform_5", 3, r.bool(), a, w, pts);
+            c.mask = Some(vec![true, false, true, true, false]);
+            c
+        }
+        _ => mk("lattice_5_1d", 1, r.bool(), a, w, lat(5, 1, 1, true)),
+    }
 }
 
 pub fn budget(a: &Args, quick: f64, thorough: f64) -> f64 {
@@ -213,7 +269,7 @@ fn c01(a: &Args, rep: &mut Report) {
         "tolerance model of DESIGN 5.3; cells with summed vertex error bound > 1e-6 L only get the membership test".into(),
     ];
     let szs = sizes(a);
-    let n = ncases(a, 400, 30000);
+    let n = ncases(a, 2500, 60000);
     let masks = a.tier == "thorough";
     run_parallel(rep, n, budget(a, 100., 1500.), |k, rep| {
         let o = GenOpts {
@@ -257,7 +313,7 @@ fn c02(a: &Args, rep: &mut Report) {
     rep.rule = "cases = seeded full builds of the conditioned families with emphasis on 1D, periodic, anisotropic boxes and large offsets; distinct = distinct input hash; non-trivial = the sum of measures was compared with the closed-form box measure (every case)".into();
     rep.assumptions = vec!["box measure = product of the active widths as given by the harness input (unit thickness on unused axes)".into()];
     let szs = sizes(a);
-    let n = ncases(a, 800, 50000);
+    let n = ncases(a, 8000, 200000);
     run_parallel(rep, n, budget(a, 100., 900.), |k, rep| {
         let o = GenOpts {
             sizes: &szs,
@@ -295,7 +351,7 @@ fn c03(a: &Args, rep: &mut Report) {
     rep.rule = "cases = seeded inputs (conditioned families, all dimensionalities, periodic or not, one third with masks); distinct = distinct input hash; non-trivial = at least one face between two constructed cells was compared from both sides".into();
     rep.assumptions = vec!["tolerance model of DESIGN 5.3 for the two cells sharing a face".into()];
     let szs = sizes(a);
-    let n = ncases(a, 500, 30000);
+    let n = ncases(a, 5000, 100000);
     run_parallel(rep, n, budget(a, 100., 900.), |k, rep| {
         let o = GenOpts {
             sizes: &szs,
@@ -329,7 +385,7 @@ fn c04(a: &Args, rep: &mut Report) {
     rep.rule = "cases = seeded inputs (conditioned families, all dimensionalities, periodic or not, one third partial builds); distinct = distinct input hash; non-trivial = at least one constructed cell whose faces were checked".into();
     rep.assumptions = vec!["tolerance model of DESIGN 5.3".into()];
     let szs = sizes(a);
-    let n = ncases(a, 500, 30000);
+    let n = ncases(a, 5000, 100000);
     run_parallel(rep, n, budget(a, 100., 900.), |k, rep| {
         let o = GenOpts {
             sizes: &szs,
